@@ -56,7 +56,7 @@ def compare_val():
 
 
 def binary_expression():
-    return field_specifier, ["==", "!=", "^=", "$=", "~=", ">", ">=", "<", "<=", "&"], compare_val
+    return field_specifier, ["==", "!=", "^=", "$=", "~=", ">=", ">", "<=", "<", "&"], compare_val
 
 
 def term():
